@@ -57,6 +57,11 @@ fn main() {
             let r = framework::run_property(prop, tier, seed);
             std::process::exit(r.exit);
         }
+        "worker" => {
+            // child process of the C09 cross-process family: pvcheck worker C09 <hex bytes>
+            let bytes = pvh::source::unhex(args.get(3).map(|s| s.as_str()).unwrap_or(""));
+            println!("{}", pvh::props::c09::worker(&bytes));
+        }
         "replay" => {
             let path = args.get(2).cloned().unwrap_or_else(|| usage());
             let strict = args.iter().any(|a| a == "--strict");
